@@ -331,16 +331,24 @@ func (i *interpreter) appendSlice(fn *ssa.Builtin, dst, src []value) []value {
 		return append(dst, src...)
 	}
 	esz := int64(8)
+	var elemT types.Type
 	if sig, ok := fn.Type().(*types.Signature); ok && sig.Params().Len() > 0 {
 		if sl, ok := sig.Params().At(0).Type().Underlying().(*types.Slice); ok {
-			esz = i.sizes.Sizeof(sl.Elem())
+			elemT = sl.Elem()
+			esz = i.sizes.Sizeof(elemT)
 		}
 	}
 	newcap := growCap(cap(dst), need, esz)
-	out := make([]value, need, newcap)
+	out := make([]value, newcap)
 	copy(out, dst)
 	copy(out[len(dst):], src)
-	return out
+	// the spare capacity is zeroed memory, visible through re-slicing
+	if elemT != nil {
+		for k := need; k < newcap; k++ {
+			out[k] = zero(elemT)
+		}
+	}
+	return out[:need]
 }
 
 var sizeClasses = []int64{0, 8, 16, 24, 32, 48, 64, 80, 96, 112, 128, 144, 160, 176, 192, 208, 224, 240, 256, 288, 320, 352, 384, 416, 448, 480, 512, 576, 640, 704, 768, 896, 1024, 1152, 1280, 1408, 1536, 1792, 2048, 2304, 2688, 3072, 3200, 3456, 4096, 4864, 5376, 6144, 6528, 6784, 6912, 8192, 9472, 9728, 10240, 10880, 12288, 13568, 14336, 16384, 18432, 19072, 20480, 21760, 24576, 27264, 28672, 32768}
